@@ -28,7 +28,7 @@ ASSUMPTIONS = [
     "credit thresholds strictly inside (l, -h)",
 ]
 
-CTORS = ["uniform", "uniform-fixed", "geometric", "geometric-bounds", "probstep", "credit"]
+CTORS = ["uniform", "uniform-fixed", "geometric", "geometric-bounds", "probstep", "credit", "hand-made"]
 
 
 @st.composite
@@ -55,6 +55,11 @@ def strat_case(draw, tier):
     if ctor == "credit":
         case["a_frac"] = [draw(_f(0.05, 0.95)) for _ in range(d)]
         case["symmetric"] = draw(st.booleans())
+    if ctor == "hand-made":
+        # the public base constructor with one array per axis: same h and origin index, different extents per axis
+        case["o"] = draw(st.integers(2, 6))
+        case["nright"] = [draw(st.integers(2, 8)) for _ in range(d)]
+        case["stretch"] = [[draw(_f(1.0, 3.0)), draw(_f(1.0, 3.0))] for _ in range(d)]
     case["refine_on_copy"] = draw(st.booleans())
     return case
 
@@ -119,6 +124,14 @@ def body(case):
                                                            nb_of_points_on_each_side=case["k"])
             elif ctor == "probstep":
                 g = S.CTMCGridProbabilityStep(h=h, model=model, minimum_probability_step=case["p_step"])
+            elif ctor == "hand-made":
+                axes = []
+                for k in range(d):
+                    sl, sr = case["stretch"][k]
+                    left = [-h * (1 + (i - 1) * sl) for i in range(case["o"], 0, -1)]
+                    right = [h * (1 + (i - 1) * sr) for i in range(1, case["nright"][k] + 1)]
+                    axes.append(np.array(left + [0.0] + right, dtype=float))
+                g = S.CTMCGrid(h=h, origin_coordinate=case["o"], axes=axes)
             else:
                 l, r = S.compute_truncation(model=model, h=h)
                 levels = [l + f * (-h - l) for f in case["a_frac"]]
